@@ -9,6 +9,7 @@ for every node (all sizes, all sharing patterns).  Lemmas live in `ClvmProofs/Le
 import ClvmProofs.Lemmas.TreeHash
 import ClvmProofs.Lemmas.TreeHashCache
 import ClvmProofs.Lemmas.TreeHashTriples
+import ClvmProofs.Lemmas.TreeHashIntern
 
 namespace Clvm.Props.C22
 open Clvm Clvm.Hash Clvm.TreeHash
@@ -114,7 +115,9 @@ theorem python_eq_treeHash_fresh (settable : Nat → Bool) (t : NTree) (hv : t.V
   obtain ⟨a, e, _⟩ := pySha256Treehash_eq settable t hv hg [] (cacheOK_nil H)
   exact ⟨a, e⟩
 
-/-- `InternedTree::tree_hash` after `intern_tree`.  PARTIAL: the hash of the interned tree is proved
+/-- `InternedTree::tree_hash` after `intern_tree`, for the NTree-based transcription `internTree` of
+`ClvmModel/TreeHash.lean` (the one the `THASH … intern` stream runs).  The unconditional statement is
+`internThenHash` below, over C24's transcription.  PARTIAL: the hash of the interned tree is proved
 (`internedTreeHash_eq_treeHash`); what is missing is C24's `intern_preserves` for the transcription
 `internTree` (the interned root denotes the same value, has consistent identities and valid inline
 atoms) — assumed here as hypotheses.  The composition is exercised by the `intern` stream/oracle. -/
@@ -122,6 +125,30 @@ theorem internThenHash_partial (t root : NTree) (na np : Nat) (h : internTree t 
     (hpres : root.erase = t.erase) (hcons : Consistent root) (hv : root.Valid) :
     internThenHash t = .ok (treeHash t.erase) := by
   simp [internThenHash, h, internedTreeHash_eq_treeHash root hv hcons, hpres]
+
+/-- **`intern_tree(..)?.tree_hash()` is the tree hash of the source — unconditional.**
+For every well-formed source DAG (`Clvm.Intern.Dag`, C24's transcription of `intern_tree_limited`) and
+every root in it: if interning succeeds, then `InternedTree::tree_hash()` — `ObjectCache` + `treehash`
+run on the root node of the new allocator (`nodeOf`: inline atoms identified by value, heap atoms and
+pairs by index, exactly what `new_atom` / `new_pair` created) — returns `treeHash` of the source tree;
+no `expect`/`panic!` is reached and the model's fuel is not exhausted.  Composition of C24
+(`internTree_ok` ⇒ the interned root denotes `denote d root`) with `internedTreeHash_eq_treeHash`;
+consistency of the new allocator's identities and validity of its inline atoms are proved
+(`nodeOf_consistent`, `newAtomNode_valid`), not assumed.  (Interning fails only with the new
+allocator's limit errors: C24 `intern_total`.) -/
+theorem internThenHash {d : Intern.Dag} (wf : d.WF) {root : Nat} (hroot : root < d.size)
+    {it : Intern.InternedTree} (h : Intern.internTree d root = .ok it) :
+    treeHashOfInterned it = .ok (treeHash (Intern.denote d root)) := by
+  obtain ⟨n, e, her, hv, hc⟩ := interned_root_node wf hroot h
+  simp [treeHashOfInterned, e, internedTreeHash_eq_treeHash n hv hc, her]
+
+/-- the root node the previous theorem hashes: it exists, denotes the source tree, has consistent
+identities and valid inline atoms -/
+theorem interned_root_is_node {d : Intern.Dag} (wf : d.WF) {root : Nat} (hroot : root < d.size)
+    {it : Intern.InternedTree} (h : Intern.internTree d root = .ok it) :
+    ∃ n, nodeOf it.atoms it.pairs it.root = some n ∧ n.erase = Intern.denote d root ∧ n.Valid ∧
+      Consistent n :=
+  interned_root_node wf hroot h
 
 /-- work-list order of `tree_hash_costed`: a node on top of `ops` is processed completely — its cost
 charged (pair first, then everything in the right sub-tree, then the left), its hash pushed — before
